@@ -10,7 +10,9 @@ def kindStr : Kind → String
   | .link => "link" | .pathItem => "pathItem"
 
 def addNodes (ns new : List CNode) : List CNode :=
-  new.foldl (fun acc n => if acc.any (·.same n) then acc else acc ++ [n]) ns
+  new.foldl (fun acc n =>
+    if acc.any (·.same n) then (if n.nat then acc.map (fun m => if m.same n then { m with nat := true } else m) else acc)
+    else acc ++ [n]) ns
 
 def srcJson (fs : Files) (rootData : Option Json) (src : String) : Option Json :=
   if src = "" then rootData else (fs.find? (·.1 = src)).map (·.2)
@@ -20,18 +22,21 @@ def needed (fs : Files) (rootData : Option Json) (cx : Cx) (n : CNode) : List CN
   match n.ref with
   | none => ([], [])
   | some t =>
-    match stepGo fs rootData cx t n.kind with
-    | .node cont home src ptr typed dl =>
-      ((match dl with
+    let dl := docLoadGo fs cx t
+    let docNodes := match dl with
        | some d => match fetch fs d with
          | some dj => enumDoc ⟨some d, some d⟩ (storeKey d) dj
          | none => []
-       | none => []) ++
+       | none => []
+    let docCx := match dl with | some d => [⟨some d, some d⟩] | none => []
+    match stepGo fs rootData cx t n.kind with
+    | .node cont home src ptr typed _ =>
+      (docNodes ++
       (match (srcJson fs rootData src).bind (fun j => rawAt j ptr) with
-       | some v => enum 64 home src ptr n.kind v typed
+       | some v => (enum 64 home src ptr n.kind v typed).map (fun x => { x with nat := typed || (cx == n.cx && n.nat) })
        | none => []),
-       [cont, home] ++ (match dl with | some d => [⟨some d, some d⟩] | none => []))
-    | _ => ([], [])
+       [cont, home] ++ docCx)
+    | _ => (docNodes, docCx)
 
 def dedup [BEq α] (l : List α) : List α := l.foldl (fun acc x => if acc.contains x then acc else acc ++ [x]) []
 
@@ -69,7 +74,8 @@ def build (fs : Files) (rootData : Option Json) (rootCx : Cx) (rootSrc : String)
       { kind := m.kind, ref := m.ref.bind (idxOf texts),
         kids := m.kids.filterMap (fun (p, k) => findObj nodes m.cx m.src p k false),
         skipped := m.skipped.filterMap (fun (p, k) => findObj nodes m.cx m.src p k false),
-        home := (idxOf cxs m.cx).getD 0 })
+        home := (idxOf cxs m.cx).getD 0,
+        orig := if m.copy then findObj nodes m.cx m.src m.ptr m.kind false else none })
   let step (l : Loc) (t : Text) (k : Kind) : Option StepR :=
     match cxs[l]?, texts[t]? with
     | some c, some tx => some (stepGo fs rootData c tx k)
@@ -86,9 +92,9 @@ def build (fs : Files) (rootData : Option Json) (rootCx : Cx) (rootSrc : String)
           | none => []
         else []
       | none => [],
-    docOf := fun l t => match step l t .schema with
-      | some (.node _ _ _ _ _ (some d)) => idxOf cxs ⟨some d, some d⟩
-      | _ => none,
+    docOf := fun l t => match cxs[l]?, texts[t]? with
+      | some c, some tx => (docLoadGo fs c tx).bind (fun d => idxOf cxs ⟨some d, some d⟩)
+      | _, _ => none,
     target := fun l t k => match step l t k with
       | some (.node cont home src ptr _ _) => (idxOf cxs cont).bind (fun ci =>
           match (if k == .pathItem then none else findObj nodes home src ptr k true) with
@@ -154,15 +160,15 @@ def handle (j : Json) : Json :=
   let topIds : List Obj := (docChildren rootJ).filterMap (fun ch => findObj b.nodes rootCx rootSrc ch.toks ch.kind false)
   let (outcome, refs, nback, foreign, nnil) := match res with
     | .ok s => ("ok", reach b s 4000 topIds [] [], s.nback, s.foreign, s.nnil)
-    | .err => ("err", [], 0, false, 0)
-    | .panic => ("panic", [], 0, false, 0)
+    | .err fg => ("err", [], 0, fg, 0)
+    | .panic fg => ("panic", [], 0, fg, 0)
     | .outOfFuel => ("outOfFuel", [], 0, false, 0)
   -- specification
   let specRefs := specWalk fs rootData 4000
-    ((docChildren rootJ).map (fun c => ((if isData then none else some (storeKey root)), c.kind, c.j, c.toks.getLast?.getD ""))) []
+    ((docChildren rootJ).map (fun c => ((if isData then none else some (storeKey root)), c.kind, c.j, c.toks.getLast?.getD ""))) (if isData then [] else [storeKey root]) []
   let specOK := specRefs.all (·.2.isSome)
   -- exclusion classes
-  let refNodes := b.nodes.filter (fun n => n.ref.isSome && !n.copy)
+  let refNodes := b.nodes.filter (fun n => n.ref.isSome && !n.copy && n.nat)
   let stepOf (n : CNode) : StepR := stepGo fs rootData n.cx (n.ref.getD "") n.kind   -- evaluated at home
   let stepKey (r : StepR) : String := match r with
     | .node cx _ src ptr _ _ => s!"{repr cx}|{src}|{ptr}"
@@ -170,12 +176,16 @@ def handle (j : Json) : Json :=
   let textNotGlobal := refNodes.any (fun a => refNodes.any (fun c =>
     a.ref == c.ref && a.kind == c.kind && stepKey (stepOf a) != stepKey (stepOf c)))
   let kindClash := refNodes.any (fun a => refNodes.any (fun c => a.ref == c.ref && a.kind != c.kind))
-  let unwalked := b.nodes.any (fun n => n.skipped.any (fun (p, k) =>
-      b.nodes.any (fun m => m.cx == n.cx && m.src == n.src && m.ptr == p && m.kind == k && m.ref.isSome))) ||
-    ((docChildren rootJ).any (fun c => !c.walked && (refOf c.j).isSome)) ||
-    (b.cxs.any (fun c => c.doc == c.path && (match c.doc.bind (fetch fs) with
-      | some dj => (docChildren dj).any (fun ch => !ch.walked && (refOf ch.j).isSome)
-      | none => false)))
+  -- a reference that sits at, or anywhere below, a position no resolver visits
+  let skippedRoots : List (Cx × String × List String) :=
+    b.nodes.flatMap (fun n => n.skipped.map (fun (p, _) => (n.cx, n.src, p))) ++
+    (b.cxs.filter (fun c => c.doc == c.path)).flatMap (fun c =>
+      let dj := match c.doc with | some d => fetch fs d | none => rootData
+      let src := match c.doc with | some d => storeKey d | none => ""
+      match dj with
+      | some dj => ((docChildren dj).filter (fun ch => !ch.walked)).map (fun ch => (c, src, ch.toks))
+      | none => [])
+  let unwalked := refNodes.any (fun n => skippedRoots.any (fun (c, s, p) => c == n.cx && s == n.src && p.isPrefixOf n.ptr))
   let targetIsRef (n : CNode) : Bool := match stepOf n with
     | .node _ home src ptr _ _ => b.nodes.any (fun m => m.cx == home && m.src == src && m.ptr == ptr && m.kind == n.kind && m.ref.isSome && !m.copy)
     | _ => false
@@ -242,6 +252,7 @@ def handle (j : Json) : Json :=
     ("model", jobj [("outcome", Json.str outcome), ("refs", groupRefs refs)]),
     ("spec", jobj [("ok", Json.bool specOK), ("refs", Json.mkObj (specRefs.map (fun (r, v) => (r, v.getD Json.null))))]),
     ("excl", jstrs excl),
+    ("dbg", jstrs (disagree.map (fun n => s!"{n.ref.getD ""} @{n.src} go={goStepKey n} spec={specStepKey n}"))),
     ("branches", jstrs branches)]
 
 end KinModel.Drv.C02
